@@ -25,6 +25,9 @@ fn lookup(cmd: &str) -> Option<CaseFn> {
         "c11w" => cases::sched::c11w,
         "c11c" => cases::sched::c11c,
         "c13" => cases::refuse::c13,
+        "c19g" => cases::asql::c19g,
+        "c19t" => cases::asql::c19t,
+        "c19x" => cases::asql::c19x,
         "c18i" => cases::slice::c18i,
         "c18v" => cases::slice::c18v,
         "c18s" => cases::slice::c18s,
